@@ -341,6 +341,7 @@ type gxHarness struct {
 
 func (c *Ctx) newGxHarness() *gxHarness {
 	h := &gxHarness{c: c, m: newMach(c), tokTypes: map[string]int64{}}
+	h.m.maxDepth = 1200 // a level of parentheses takes the recursive descent through all its levels: 40 levels are legitimate input
 	h.newToken = c.MustFunc("tokenizers", "", "NewToken")
 	ctor := c.MustFunc(pkgParsers, "", "NewExpressionParser")
 	h.parseTokens = c.MustFunc(pkgParsers, "ExpressionParser", "ParseTokens")
@@ -571,6 +572,7 @@ func gxFamilies(thorough bool) []gxFamily {
 	}
 	recArgs(nil, 3)
 	fams = append(fams, gxFamily{"nested-calls", nested})
+	fams = append(fams, gxFamily{"long-flat-and-deep-sentences", gxLongSentences()})
 	// tokens of every other tokenizer category: nothing but words, keywords, symbols and constants is classified
 	fams = append(fams, gxFamily{"unclassifiable-tokens", []string{
 		// a token handed in as a keyword whose text is no letter-case variant of one (KELVIN SIGN is not a K)
@@ -627,6 +629,65 @@ func gxFamilies(thorough bool) []gxFamily {
 	return fams
 }
 
+// gxLongSentences: the grammar bounds neither the length of a sentence nor its nesting. Flat chains of 70 and
+// 130 operands - plain, indexed, called, parenthesised, signed, mixed - under operators of every level are
+// sentences with the left-associative post-order; so are 40 levels of parentheses, calls, indexes and
+// right-nested groups.
+func gxLongSentences() []string {
+	var out []string
+	names := []string{"a", "b", "c", "d"}
+	chain := func(n int, op string, operand func(i int) string) string {
+		var parts []string
+		for i := 0; i < n; i++ {
+			parts = append(parts, operand(i))
+		}
+		return strings.Join(parts, " "+op+" ")
+	}
+	plain := func(i int) string { return names[i%4] }
+	indexed := func(i int) string { return names[i%4] + " [ " + names[(i+1)%4] + " ]" }
+	called := func(i int) string { return "f ( " + names[i%4] + " )" }
+	grouped := func(i int) string { return "( " + names[i%4] + " )" }
+	signed := func(i int) string { return "- " + names[i%4] }
+	mixed := func(i int) string { return []func(int) string{indexed, called, grouped, signed, plain}[i%5](i) }
+	for _, n := range []int{70, 130} {
+		for _, op := range []string{"+", "*", "AND", "<", "^"} {
+			out = append(out, chain(n, op, plain))
+		}
+		out = append(out, chain(n, "+", indexed), chain(n, "-", called), chain(n, "*", grouped), chain(n, "+", signed))
+	}
+	out = append(out, chain(70, "OR", indexed), chain(70, "/", mixed))
+	nest := func(depth int, open, inner, close string) string {
+		return strings.Repeat(open+" ", depth) + inner + strings.Repeat(" "+close, depth)
+	}
+	out = append(out, nest(40, "(", "a", ")"), nest(40, "f (", "a", ")"), nest(40, "a [", "b", "]"), nest(40, "a + (", "b", ")"), nest(40, "f ( a [", "b", "] )"))
+	return out
+}
+
+// gxShowItem: a member as the witness prints it; a long one by its beginning, its end and its length.
+func gxShowItem(item string) string {
+	fs := strings.Split(item, " ")
+	if len(fs) <= 48 {
+		return "‹" + item + "›"
+	}
+	return fmt.Sprintf("‹%s … %s› (%d tokens, continued in the same pattern)", strings.Join(fs[:24], " "), strings.Join(fs[len(fs)-8:], " "), len(fs))
+}
+
+// gxShowSeq: a sequence as the witness prints it; a long one by its beginning, its end and its length.
+func gxShowSeq(seq []string, sep string) string {
+	if len(seq) <= 40 {
+		return strings.Join(seq, sep)
+	}
+	return fmt.Sprintf("%s%s…%s%s (%d in all)", strings.Join(seq[:16], sep), sep, sep, strings.Join(seq[len(seq)-6:], sep), len(seq))
+}
+
+// gxClip: a witness of a long member, cut to a readable length.
+func gxClip(s string) string {
+	if r := []rune(s); len(r) > 1500 {
+		return string(r[:1500]) + " …"
+	}
+	return s
+}
+
 type gxVerdict struct {
 	treeBad, langBad, undec string
 	posBad                  string
@@ -661,6 +722,9 @@ func (c *Ctx) gxRun() []*gxFamVerdict {
 		if len(f.items) > 2000 {
 			nw = 12
 		}
+		if f.name == "long-flat-and-deep-sentences" {
+			nw = 8 // few members, each of several hundred tokens
+		}
 		type res struct {
 			idx                     int
 			treeBad, langBad, undec string
@@ -685,7 +749,7 @@ func (c *Ctx) gxRun() []*gxFamVerdict {
 					acc, want := gxReference(ls)
 					got := h.parse(ls)
 					r := res{idx: i, sentence: acc}
-					show := "‹" + item + "›"
+					show := gxShowItem(item)
 					if got.kind == "accept" || got.kind == "reject" {
 						r.steps = got.steps
 					}
@@ -702,13 +766,13 @@ func (c *Ctx) gxRun() []*gxFamVerdict {
 								// the empty input is outside the statement ("every other non-empty token sequence")
 								break
 							}
-							r.langBad = fmt.Sprintf("%s is not a sentence of the grammar but is accepted and compiled to [%s]: tokens are skipped, substituted or ignored [last functions entered: %s]", show, strings.Join(got.rpn, " "), h.lastPath)
+							r.langBad = fmt.Sprintf("%s is not a sentence of the grammar but is accepted and compiled to [%s]: tokens are skipped, substituted or ignored [last functions entered: %s]", show, gxShowSeq(got.rpn, " "), h.lastPath)
 						} else if strings.Join(got.rpn, " ") != strings.Join(want, " ") {
-							r.treeBad = fmt.Sprintf("%s is compiled to [%s]; the post-order of its syntax tree under the precedence table is [%s] [last functions entered: %s]", show, strings.Join(got.rpn, " "), strings.Join(want, " "), h.lastPath)
+							r.treeBad = fmt.Sprintf("%s is compiled to [%s]; the post-order of its syntax tree under the precedence table is [%s] [last functions entered: %s]", show, gxShowSeq(got.rpn, " "), gxShowSeq(want, " "), h.lastPath)
 						}
 					case "reject":
 						if acc {
-							r.langBad = fmt.Sprintf("%s is a sentence of the grammar (post-order [%s]) but is rejected with %s [last functions entered: %s]", show, strings.Join(want, " "), got.code, h.lastPath)
+							r.langBad = fmt.Sprintf("%s is a sentence of the grammar (post-order [%s]) but is rejected with %s [last functions entered: %s]", show, gxShowSeq(want, " "), got.code, h.lastPath)
 						} else if got.code == "" {
 							r.langBad = fmt.Sprintf("%s is rejected with an error that carries no code", show)
 						}
@@ -722,6 +786,7 @@ func (c *Ctx) gxRun() []*gxFamVerdict {
 							}
 						}
 					}
+					r.treeBad, r.langBad = gxClip(r.treeBad), gxClip(r.langBad)
 					results[i] = r
 				}
 			}(w)
